@@ -126,6 +126,10 @@ pub struct Obs {
     pub join_panicked: bool,
     /// discovery_classification() per discovered property
     pub class: std::collections::BTreeMap<String, String>,
+    /// per property (in declaration order): discovery(name).is_some(), assert_any_discovery(name) returned,
+    /// assert_no_discovery(name) returned
+    #[serde(default)]
+    pub per_prop: Vec<(bool, bool, bool)>,
 }
 
 pub fn swap12(s: &u8) -> u8 {
@@ -188,6 +192,7 @@ pub fn finish_run_with<C: Checker<GraphModel>>(
             assert_ok: false,
             join_panicked: false,
             class: Default::default(),
+            per_prop: Vec::new(),
         };
     }
     let joined = catch_unwind(AssertUnwindSafe(move || c.join()));
@@ -201,6 +206,7 @@ pub fn finish_run_with<C: Checker<GraphModel>>(
         assert_ok: false,
         join_panicked: false,
         class: Default::default(),
+        per_prop: Vec::new(),
     };
     match joined {
         Err(_) => {
@@ -224,6 +230,18 @@ pub fn finish_run_with<C: Checker<GraphModel>>(
                 }
             }
             obs.assert_ok = catch_unwind(AssertUnwindSafe(|| c.assert_properties())).is_ok();
+            if obs.disc.is_ok() {
+                for k in 0..c.model().props.len() {
+                    let name = NAMES[k];
+                    let some = catch_unwind(AssertUnwindSafe(|| c.discovery(name).is_some())).unwrap_or(false);
+                    let any_ok = catch_unwind(AssertUnwindSafe(|| {
+                        c.assert_any_discovery(name);
+                    }))
+                    .is_ok();
+                    let no_ok = catch_unwind(AssertUnwindSafe(|| c.assert_no_discovery(name))).is_ok();
+                    obs.per_prop.push((some, any_ok, no_ok));
+                }
+            }
         }
     }
     obs.visited = std::mem::take(&mut *rec.lock().unwrap());
